@@ -191,6 +191,399 @@ theorem read_exact (cfg : Cfg) (fs : Call → Ans) (h : Hdr) (R : Req fs h) (hop
   simp only [mkCall, call, List.cons_append, List.nil_append, READ_LOCKOWNER]
   wire_norm
 
+
+/-! ### operations carrying names -/
+
+/-- a file name as the client sends it: no NUL inside -/
+def NameOk (n : Bytes) : Prop := ∀ b ∈ n, b ≠ 0
+
+/-- LOOKUP / UNLINK / RMDIR / REMOVEXATTR: the name of every length, byte for byte -/
+theorem name_ops_exact (cfg : Cfg) (fs : Call → Ans) (h : Hdr) (R : Req fs h) (name : Bytes) (hn : NameOk name)
+    (hl : h.len = IN_HDR + 0 + (name.length + 1)) :
+    (h.op = 1 → (handle cfg fs (encHdr h ++ ([] ++ (name ++ [0])))).calls =
+        [remapOf h, call fs h "lookup" [.n h.nodeid, .bytes name]]) ∧
+    (h.op = 10 → (handle cfg fs (encHdr h ++ ([] ++ (name ++ [0])))).calls =
+        [remapOf h, call fs h "unlink" [.n h.nodeid, .bytes name]]) ∧
+    (h.op = 11 → (handle cfg fs (encHdr h ++ ([] ++ (name ++ [0])))).calls =
+        [remapOf h, call fs h "rmdir" [.n h.nodeid, .bytes name]]) ∧
+    (h.op = 24 → (handle cfg fs (encHdr h ++ ([] ++ (name ++ [0])))).calls =
+        [remapOf h, call fs h "removexattr" [.n h.nodeid, .bytes name]]) := by
+  refine ⟨?_, ?_, ?_, ?_⟩ <;> intro hop <;>
+    (rw [handle_reaches_handler cfg fs h R.wf _ R.len R.remapOk, hop]
+     unfold handleBody
+     simp only
+     rw [named_ok _ _ _ _ [] name 0 _ rfl hl hn]
+     simp [mkCall, call])
+
+/-- MKNOD: mode, rdev, umask and the name -/
+theorem mknod_exact (cfg : Cfg) (fs : Call → Ans) (h : Hdr) (R : Req fs h) (hop : h.op = 8)
+    (mode rdev umask pad : Nat) (h1 : mode < 2 ^ 32) (h2 : rdev < 2 ^ 32) (h3 : umask < 2 ^ 32) (h4 : pad < 2 ^ 32)
+    (name : Bytes) (hn : NameOk name) (hl : h.len = IN_HDR + 16 + (name.length + 1)) :
+    (handle cfg fs (encHdr h ++ ((le32 mode ++ le32 rdev ++ le32 umask ++ le32 pad) ++ (name ++ [0])))).calls =
+      [remapOf h, call fs h "mknod" [.n h.nodeid, .bytes name, .n mode, .n rdev, .n umask]] := by
+  rw [handle_reaches_handler cfg fs h R.wf _ R.len R.remapOk, hop]
+  unfold handleBody
+  simp only
+  rw [withObj_ok _ _ _ _ _ (by simp only [List.length_append, le32_length]; omega)]
+  rw [named_ok _ _ _ _ (le32 mode ++ le32 rdev ++ le32 umask ++ le32 pad) name 16 _ (by simp) hl hn]
+  simp only [simple_calls, mkCall, call, List.cons_append, List.nil_append]
+  wire_norm
+
+/-- MKDIR -/
+theorem mkdir_exact (cfg : Cfg) (fs : Call → Ans) (h : Hdr) (R : Req fs h) (hop : h.op = 9)
+    (mode umask : Nat) (h1 : mode < 2 ^ 32) (h3 : umask < 2 ^ 32)
+    (name : Bytes) (hn : NameOk name) (hl : h.len = IN_HDR + 8 + (name.length + 1)) :
+    (handle cfg fs (encHdr h ++ ((le32 mode ++ le32 umask) ++ (name ++ [0])))).calls =
+      [remapOf h, call fs h "mkdir" [.n h.nodeid, .bytes name, .n mode, .n umask]] := by
+  rw [handle_reaches_handler cfg fs h R.wf _ R.len R.remapOk, hop]
+  unfold handleBody
+  simp only
+  rw [withObj_ok _ _ _ _ _ (by simp only [List.length_append, le32_length]; omega)]
+  rw [named_ok _ _ _ _ (le32 mode ++ le32 umask) name 8 _ (by simp) hl hn]
+  simp only [simple_calls, mkCall, call, List.cons_append, List.nil_append]
+  wire_norm
+
+/-- LINK: the existing inode, the new parent (header node id) and the new name -/
+theorem link_exact (cfg : Cfg) (fs : Call → Ans) (h : Hdr) (R : Req fs h) (hop : h.op = 13)
+    (old : Nat) (h1 : old < 2 ^ 64) (name : Bytes) (hn : NameOk name)
+    (hl : h.len = IN_HDR + 8 + (name.length + 1)) :
+    (handle cfg fs (encHdr h ++ (le64 old ++ (name ++ [0])))).calls =
+      [remapOf h, call fs h "link" [.n old, .n h.nodeid, .bytes name]] := by
+  rw [handle_reaches_handler cfg fs h R.wf _ R.len R.remapOk, hop]
+  unfold handleBody
+  simp only
+  rw [withObj_ok _ _ _ _ _ (by simp only [List.length_append, le64_length]; omega)]
+  rw [named_ok _ _ _ _ (le64 old) name 8 _ (by simp) hl hn]
+  simp only [simple_calls, mkCall, call, List.cons_append, List.nil_append]
+  wire_norm
+
+/-- CREATE: the whole `fuse_create_in` and the name -/
+theorem create_exact (cfg : Cfg) (fs : Call → Ans) (h : Hdr) (R : Req fs h) (hop : h.op = 35)
+    (flags mode umask ff : Nat) (h1 : flags < 2 ^ 32) (h2 : mode < 2 ^ 32) (h3 : umask < 2 ^ 32) (h4 : ff < 2 ^ 32)
+    (name : Bytes) (hn : NameOk name) (hl : h.len = IN_HDR + 16 + (name.length + 1)) :
+    (handle cfg fs (encHdr h ++ ((le32 flags ++ le32 mode ++ le32 umask ++ le32 ff) ++ (name ++ [0])))).calls =
+      [remapOf h, call fs h "create" [.n h.nodeid, .bytes name, .create flags mode umask ff]] := by
+  rw [handle_reaches_handler cfg fs h R.wf _ R.len R.remapOk, hop]
+  unfold handleBody
+  simp only
+  rw [withObj_ok _ _ _ _ _ (by simp only [List.length_append, le32_length]; omega)]
+  rw [named_ok _ _ _ _ (le32 flags ++ le32 mode ++ le32 umask ++ le32 ff) name 16 _ (by simp) hl hn]
+  simp only [simple_calls, mkCall, call, List.cons_append, List.nil_append]
+  wire_norm
+
+/-- GETXATTR: the attribute name and the client's buffer size -/
+theorem getxattr_exact (cfg : Cfg) (fs : Call → Ans) (h : Hdr) (R : Req fs h) (hop : h.op = 22)
+    (size pad : Nat) (h1 : size < 2 ^ 32) (h2 : pad < 2 ^ 32)
+    (name : Bytes) (hn : NameOk name) (hl : h.len = IN_HDR + 8 + (name.length + 1)) :
+    (handle cfg fs (encHdr h ++ ((le32 size ++ le32 pad) ++ (name ++ [0])))).calls =
+      [remapOf h, call fs h "getxattr" [.n h.nodeid, .bytes name, .n size]] := by
+  rw [handle_reaches_handler cfg fs h R.wf _ R.len R.remapOk, hop]
+  unfold handleBody
+  simp only
+  rw [withObj_ok _ _ _ _ _ (by simp only [List.length_append, le32_length]; omega)]
+  rw [named_ok _ _ _ _ (le32 size ++ le32 pad) name 8 _ (by simp) hl hn]
+  simp only [simple_calls, mkCall, call, List.cons_append, List.nil_append]
+  wire_norm
+
+/-- SYMLINK: link name then target, both NUL terminated -/
+theorem symlink_exact (cfg : Cfg) (fs : Call → Ans) (h : Hdr) (R : Req fs h) (hop : h.op = 6)
+    (name target : Bytes) (hn : NameOk name) (ht : NameOk target)
+    (hl : h.len = IN_HDR + 0 + (name.length + 1 + (target.length + 1))) :
+    (handle cfg fs (encHdr h ++ (name ++ 0 :: (target ++ [0])))).calls =
+      [remapOf h, call fs h "symlink" [.bytes target, .n h.nodeid, .bytes name]] := by
+  rw [handle_reaches_handler cfg fs h R.wf _ R.len R.remapOk, hop]
+  unfold handleBody
+  simp only
+  rw [getBody_ok h.len 0 (name.length + 1 + (target.length + 1)) _ hl (by simp; omega)]
+  simp only
+  rw [List.take_of_length_le (by simp; omega), twoCstrs_ok name target hn ht]
+  simp [mkCall, call]
+
+/-- RENAME / RENAME2: old and new name, the new directory, flags masked to the three rename
+    flags the protocol defines (RENAME is flags = 0) -/
+theorem rename2_exact (cfg : Cfg) (fs : Call → Ans) (h : Hdr) (R : Req fs h) (hop : h.op = 45)
+    (newdir flags pad : Nat) (h1 : newdir < 2 ^ 64) (h2 : flags < 2 ^ 32) (h3 : pad < 2 ^ 32)
+    (o n : Bytes) (ho : NameOk o) (hn : NameOk n)
+    (hl : h.len = IN_HDR + 16 + (o.length + 1 + (n.length + 1))) :
+    (handle cfg fs (encHdr h ++ ((le64 newdir ++ le32 flags ++ le32 pad) ++ (o ++ 0 :: (n ++ [0]))))).calls =
+      [remapOf h, call fs h "rename" [.n h.nodeid, .bytes o, .n newdir, .bytes n, .n (flags &&& 7)]] := by
+  rw [handle_reaches_handler cfg fs h R.wf _ R.len R.remapOk, hop]
+  unfold handleBody
+  simp only
+  rw [withObj_ok _ _ _ _ _ (by simp only [List.length_append, le32_length, le64_length]; omega)]
+  have hd : ((le64 newdir ++ le32 flags ++ le32 pad) ++ (o ++ 0 :: (n ++ [0]))).drop 16 = o ++ 0 :: (n ++ [0]) := by
+    rw [show (16 : Nat) = (le64 newdir ++ le32 flags ++ le32 pad).length by simp, List.drop_left]
+  simp only [hd]
+  rw [getBody_ok h.len 16 (o.length + 1 + (n.length + 1)) _ hl (by simp; omega)]
+  simp only
+  rw [List.take_of_length_le (by simp; omega), twoCstrs_ok o n ho hn]
+  simp only [simple_calls, mkCall, call, List.cons_append, List.nil_append, RENAME_MASK]
+  wire_norm
+  rfl
+
+theorem rename_exact (cfg : Cfg) (fs : Call → Ans) (h : Hdr) (R : Req fs h) (hop : h.op = 12)
+    (newdir : Nat) (h1 : newdir < 2 ^ 64) (o n : Bytes) (ho : NameOk o) (hn : NameOk n)
+    (hl : h.len = IN_HDR + 8 + (o.length + 1 + (n.length + 1))) :
+    (handle cfg fs (encHdr h ++ (le64 newdir ++ (o ++ 0 :: (n ++ [0]))))).calls =
+      [remapOf h, call fs h "rename" [.n h.nodeid, .bytes o, .n newdir, .bytes n, .n 0]] := by
+  rw [handle_reaches_handler cfg fs h R.wf _ R.len R.remapOk, hop]
+  unfold handleBody
+  simp only
+  rw [withObj_ok _ _ _ _ _ (by simp only [List.length_append, le64_length]; omega)]
+  have hd : (le64 newdir ++ (o ++ 0 :: (n ++ [0]))).drop 8 = o ++ 0 :: (n ++ [0]) := by
+    rw [show (8 : Nat) = (le64 newdir).length by simp, List.drop_left]
+  simp only [hd]
+  rw [getBody_ok h.len 8 (o.length + 1 + (n.length + 1)) _ hl (by simp; omega)]
+  simp only
+  rw [List.take_of_length_le (by simp; omega), twoCstrs_ok o n ho hn]
+  simp only [simple_calls, mkCall, call, List.cons_append, List.nil_append]
+  wire_norm
+
+/-! ### remaining fixed-layout operations -/
+
+/-- WRITE: handle, offset, size, flags, the payload bytes, lock owner iff WRITE_LOCKOWNER (bit 1),
+    delayed-write iff WRITE_CACHE (bit 0) -/
+theorem write_exact (cfg : Cfg) (fs : Call → Ans) (h : Hdr) (R : Req fs h) (hop : h.op = 16)
+    (fh off wf owner flags pad : Nat) (payload : Bytes) (h1 : fh < 2 ^ 64) (h2 : off < 2 ^ 64)
+    (h3 : payload.length < 2 ^ 32) (h4 : wf < 2 ^ 32) (h5 : owner < 2 ^ 64) (h6 : flags < 2 ^ 32) (h7 : pad < 2 ^ 32) :
+    (handle cfg fs (encHdr h ++ ((le64 fh ++ le64 off ++ le32 payload.length ++ le32 wf ++ le64 owner ++ le32 flags ++
+        le32 pad) ++ payload))).calls =
+      [remapOf h, call fs h "write" [.n h.nodeid, .n fh, .bytes payload, .n payload.length, .n off,
+        .optN (if wf &&& 2 != 0 then some owner else none), .b (wf &&& 1 != 0), .n flags, .n wf]] := by
+  rw [handle_reaches_handler cfg fs h R.wf _ R.len R.remapOk, hop]
+  unfold handleBody
+  simp only
+  rw [withObj_ok _ _ _ _ _ (by simp only [List.length_append, le32_length, le64_length]; omega)]
+  have hd : ((le64 fh ++ le64 off ++ le32 payload.length ++ le32 wf ++ le64 owner ++ le32 flags ++ le32 pad) ++ payload).drop 40 = payload := by
+    rw [show (40 : Nat) = (le64 fh ++ le64 off ++ le32 payload.length ++ le32 wf ++ le64 owner ++ le32 flags ++ le32 pad).length by simp, List.drop_left]
+  simp only [simple_calls, mkCall, call, List.cons_append, List.nil_append, WRITE_LOCKOWNER, WRITE_CACHE, hd]
+  have hsz : u32At (List.take 40 (le64 fh ++ le64 off ++ le32 payload.length ++ le32 wf ++ le64 owner ++ le32 flags ++ le32 pad ++ payload)) 16 = payload.length := by
+    wire_norm
+  simp only [List.append_assoc] at hsz ⊢
+  rw [hsz, List.take_of_length_le (Nat.le_refl _)]
+  wire_norm
+
+/-- FLUSH -/
+theorem flush_exact (cfg : Cfg) (fs : Call → Ans) (h : Hdr) (R : Req fs h) (hop : h.op = 25)
+    (fh un pad owner : Nat) (h1 : fh < 2 ^ 64) (h2 : un < 2 ^ 32) (h3 : pad < 2 ^ 32) (h4 : owner < 2 ^ 64) (trail : Bytes) :
+    (handle cfg fs (encHdr h ++ (le64 fh ++ le32 un ++ le32 pad ++ le64 owner ++ trail))).calls =
+      [remapOf h, call fs h "flush" [.n h.nodeid, .n fh, .n owner]] := by
+  rw [handle_reaches_handler cfg fs h R.wf _ R.len R.remapOk, hop]
+  unfold handleBody
+  simp only
+  rw [withObj_ok _ _ _ _ _ (by simp only [List.length_append, le32_length, le64_length]; omega)]
+  simp only [simple_calls, mkCall, call, List.cons_append, List.nil_append]
+  wire_norm
+
+/-- OPENDIR / RELEASEDIR / FSYNCDIR -/
+theorem opendir_exact (cfg : Cfg) (fs : Call → Ans) (h : Hdr) (R : Req fs h) (hop : h.op = 27)
+    (flags pad : Nat) (h1 : flags < 2 ^ 32) (h2 : pad < 2 ^ 32) (trail : Bytes) :
+    (handle cfg fs (encHdr h ++ (le32 flags ++ le32 pad ++ trail))).calls =
+      [remapOf h, call fs h "opendir" [.n h.nodeid, .n flags]] := by
+  rw [handle_reaches_handler cfg fs h R.wf _ R.len R.remapOk, hop]
+  unfold handleBody
+  simp only
+  rw [withObj_ok _ _ _ _ _ (by simp only [List.length_append, le32_length]; omega)]
+  simp only [simple_calls, mkCall, call, List.cons_append, List.nil_append]
+  wire_norm
+
+theorem releasedir_exact (cfg : Cfg) (fs : Call → Ans) (h : Hdr) (R : Req fs h) (hop : h.op = 29)
+    (fh flags rf owner : Nat) (h1 : fh < 2 ^ 64) (h2 : flags < 2 ^ 32) (h3 : rf < 2 ^ 32) (h4 : owner < 2 ^ 64) (trail : Bytes) :
+    (handle cfg fs (encHdr h ++ (le64 fh ++ le32 flags ++ le32 rf ++ le64 owner ++ trail))).calls =
+      [remapOf h, call fs h "releasedir" [.n h.nodeid, .n flags, .n fh]] := by
+  rw [handle_reaches_handler cfg fs h R.wf _ R.len R.remapOk, hop]
+  unfold handleBody
+  simp only
+  rw [withObj_ok _ _ _ _ _ (by simp only [List.length_append, le32_length, le64_length]; omega)]
+  simp only [simple_calls, mkCall, call, List.cons_append, List.nil_append]
+  wire_norm
+
+theorem fsyncdir_exact (cfg : Cfg) (fs : Call → Ans) (h : Hdr) (R : Req fs h) (hop : h.op = 30)
+    (fh ff pad : Nat) (hfh : fh < 2 ^ 64) (hff : ff < 2 ^ 32) (hp : pad < 2 ^ 32) (trail : Bytes) :
+    (handle cfg fs (encHdr h ++ (le64 fh ++ le32 ff ++ le32 pad ++ trail))).calls =
+      [remapOf h, call fs h "fsyncdir" [.n h.nodeid, .b (ff &&& 1 != 0), .n fh]] := by
+  rw [handle_reaches_handler cfg fs h R.wf _ R.len R.remapOk, hop]
+  unfold handleBody
+  simp only
+  rw [withObj_ok _ _ _ _ _ (by simp only [List.length_append, le32_length, le64_length]; omega)]
+  simp only [simple_calls, mkCall, call, List.cons_append, List.nil_append]
+  wire_norm
+
+/-- GETLK / SETLK -/
+theorem getlk_setlk_exact (cfg : Cfg) (fs : Call → Ans) (h : Hdr) (R : Req fs h)
+    (fh owner s e ty pid lf pad : Nat) (h1 : fh < 2 ^ 64) (h2 : owner < 2 ^ 64) (h3 : s < 2 ^ 64)
+    (h4 : e < 2 ^ 64) (h5 : ty < 2 ^ 32) (h6 : pid < 2 ^ 32) (h7 : lf < 2 ^ 32) (h8 : pad < 2 ^ 32)
+    (trail : Bytes) :
+    (h.op = 31 → (handle cfg fs (encHdr h ++ (le64 fh ++ le64 owner ++ le64 s ++ le64 e ++ le32 ty ++ le32 pid ++
+        le32 lf ++ le32 pad ++ trail))).calls =
+      [remapOf h, call fs h "getlk" [.n h.nodeid, .n fh, .n owner, .lock s e ty pid, .n lf]]) ∧
+    (h.op = 32 → (handle cfg fs (encHdr h ++ (le64 fh ++ le64 owner ++ le64 s ++ le64 e ++ le32 ty ++ le32 pid ++
+        le32 lf ++ le32 pad ++ trail))).calls =
+      [remapOf h, call fs h "setlk" [.n h.nodeid, .n fh, .n owner, .lock s e ty pid, .n lf]]) := by
+  constructor <;> intro hop <;>
+    (rw [handle_reaches_handler cfg fs h R.wf _ R.len R.remapOk, hop]
+     unfold handleBody
+     simp only
+     rw [withObj_ok _ _ _ _ _ (by simp only [List.length_append, le32_length, le64_length]; omega)]
+     simp only [simple_calls, mkCall, call, List.cons_append, List.nil_append]
+     wire_norm)
+
+/-- LISTXATTR / BMAP / POLL -/
+theorem listxattr_exact (cfg : Cfg) (fs : Call → Ans) (h : Hdr) (R : Req fs h) (hop : h.op = 23)
+    (size pad : Nat) (h1 : size < 2 ^ 32) (h2 : pad < 2 ^ 32) (trail : Bytes) :
+    (handle cfg fs (encHdr h ++ (le32 size ++ le32 pad ++ trail))).calls =
+      [remapOf h, call fs h "listxattr" [.n h.nodeid, .n size]] := by
+  rw [handle_reaches_handler cfg fs h R.wf _ R.len R.remapOk, hop]
+  unfold handleBody
+  simp only
+  rw [withObj_ok _ _ _ _ _ (by simp only [List.length_append, le32_length]; omega)]
+  simp only [simple_calls, mkCall, call, List.cons_append, List.nil_append]
+  wire_norm
+
+theorem bmap_exact (cfg : Cfg) (fs : Call → Ans) (h : Hdr) (R : Req fs h) (hop : h.op = 37)
+    (block bs pad : Nat) (h1 : block < 2 ^ 64) (h2 : bs < 2 ^ 32) (h3 : pad < 2 ^ 32) (trail : Bytes) :
+    (handle cfg fs (encHdr h ++ (le64 block ++ le32 bs ++ le32 pad ++ trail))).calls =
+      [remapOf h, call fs h "bmap" [.n h.nodeid, .n block, .n bs]] := by
+  rw [handle_reaches_handler cfg fs h R.wf _ R.len R.remapOk, hop]
+  unfold handleBody
+  simp only
+  rw [withObj_ok _ _ _ _ _ (by simp only [List.length_append, le32_length, le64_length]; omega)]
+  simp only [simple_calls, mkCall, call, List.cons_append, List.nil_append]
+  wire_norm
+
+theorem poll_exact (cfg : Cfg) (fs : Call → Ans) (h : Hdr) (R : Req fs h) (hop : h.op = 40)
+    (fh kh flags events : Nat) (h1 : fh < 2 ^ 64) (h2 : kh < 2 ^ 64) (h3 : flags < 2 ^ 32) (h4 : events < 2 ^ 32)
+    (trail : Bytes) :
+    (handle cfg fs (encHdr h ++ (le64 fh ++ le64 kh ++ le32 flags ++ le32 events ++ trail))).calls =
+      [remapOf h, call fs h "poll" [.n h.nodeid, .n fh, .n kh, .n flags, .n events]] := by
+  rw [handle_reaches_handler cfg fs h R.wf _ R.len R.remapOk, hop]
+  unfold handleBody
+  simp only
+  rw [withObj_ok _ _ _ _ _ (by simp only [List.length_append, le32_length, le64_length]; omega)]
+  simp only [simple_calls, mkCall, call, List.cons_append, List.nil_append]
+  wire_norm
+
+/-- READLINK / STATFS: no request structure, one call with the node id -/
+theorem readlink_statfs_exact (cfg : Cfg) (fs : Call → Ans) (h : Hdr) (R : Req fs h) (body : Bytes) :
+    (h.op = 5 → (handle cfg fs (encHdr h ++ body)).calls = [remapOf h, call fs h "readlink" [.n h.nodeid]]) ∧
+    (h.op = 17 → (handle cfg fs (encHdr h ++ body)).calls = [remapOf h, call fs h "statfs" [.n h.nodeid]]) := by
+  constructor <;> intro hop <;>
+    (rw [handle_reaches_handler cfg fs h R.wf _ R.len R.remapOk, hop]
+     unfold handleBody
+     simp [mkCall, call])
+
+/-- INTERRUPT reaches no file-system operation at all; DESTROY reaches `destroy` -/
+theorem interrupt_destroy_exact (cfg : Cfg) (fs : Call → Ans) (h : Hdr) (R : Req fs h) (body : Bytes) :
+    (h.op = 36 → (handle cfg fs (encHdr h ++ body)).calls = [remapOf h]) ∧
+    (h.op = 38 → (handle cfg fs (encHdr h ++ body)).calls =
+        [remapOf h, { method := "destroy", ctx := { uid := 0, gid := 0, pid := 0 }, args := [] }]) := by
+  constructor <;> intro hop <;>
+    (rw [handle_reaches_handler cfg fs h R.wf _ R.len R.remapOk, hop]
+     unfold handleBody
+     simp [okRes])
+
+/-- READDIR / READDIRPLUS: handle, size and offset (the fs is asked only when the reply buffer
+    can hold the header plus the requested size) -/
+theorem readdir_exact (cfg : Cfg) (fs : Call → Ans) (h : Hdr) (R : Req fs h)
+    (fh off size rf owner flags pad : Nat) (h1 : fh < 2 ^ 64) (h2 : off < 2 ^ 64) (h3 : size < 2 ^ 32)
+    (h4 : rf < 2 ^ 32) (h5 : owner < 2 ^ 64) (h6 : flags < 2 ^ 32) (h7 : pad < 2 ^ 32) (trail : Bytes)
+    (hcap : size + 16 ≤ cfg.cap) :
+    (h.op = 28 → (handle cfg fs (encHdr h ++ (le64 fh ++ le64 off ++ le32 size ++ le32 rf ++ le64 owner ++ le32 flags ++
+        le32 pad ++ trail))).calls = [remapOf h, call fs h "readdir" [.n h.nodeid, .n fh, .n size, .n off]]) ∧
+    (h.op = 44 → (handle cfg fs (encHdr h ++ (le64 fh ++ le64 off ++ le32 size ++ le32 rf ++ le64 owner ++ le32 flags ++
+        le32 pad ++ trail))).calls = [remapOf h, call fs h "readdirplus" [.n h.nodeid, .n fh, .n size, .n off]]) := by
+  have hsz : u32At (List.take 40 (le64 fh ++ le64 off ++ le32 size ++ le32 rf ++ le64 owner ++ le32 flags ++ le32 pad ++ trail)) 16 = size := by
+    wire_norm
+  constructor <;> intro hop <;>
+    (rw [handle_reaches_handler cfg fs h R.wf _ R.len R.remapOk, hop]
+     unfold handleBody
+     simp only
+     rw [withObj_ok _ _ _ _ _ (by simp only [List.length_append, le32_length, le64_length]; omega)]
+     simp only [List.append_assoc] at hsz ⊢
+     simp only [hsz]
+     rw [if_neg (by unfold OUT_HDR; omega), if_neg (by unfold OUT_HDR; omega)]
+     simp only [dirReply_calls, mkCall, call, List.cons_append, List.nil_append]
+     wire_norm
+     simp)
+
+
+/-- SETATTR: every settable field reaches the file system in the host structure, the handle is
+    present iff FATTR_FH (bit 6), the valid mask is the ten attribute bits of `valid` -/
+theorem setattr_exact (cfg : Cfg) (fs : Call → Ans) (h : Hdr) (R : Req fs h) (hop : h.op = 4)
+    (valid pad fh size lo atime mtime ctime ans mns cns mode u4 uid gid u5 : Nat)
+    (b1 : valid < 2 ^ 32) (b2 : pad < 2 ^ 32) (b3 : fh < 2 ^ 64) (b4 : size < 2 ^ 64) (b5 : lo < 2 ^ 64)
+    (b6 : atime < 2 ^ 64) (b7 : mtime < 2 ^ 64) (b8 : ctime < 2 ^ 64) (b9 : ans < 2 ^ 32) (b10 : mns < 2 ^ 32)
+    (b11 : cns < 2 ^ 32) (b12 : mode < 2 ^ 32) (b13 : u4 < 2 ^ 32) (b14 : uid < 2 ^ 32) (b15 : gid < 2 ^ 32)
+    (b16 : u5 < 2 ^ 32) (trail : Bytes) :
+    (handle cfg fs (encHdr h ++ (le32 valid ++ le32 pad ++ le64 fh ++ le64 size ++ le64 lo ++ le64 atime ++
+        le64 mtime ++ le64 ctime ++ le32 ans ++ le32 mns ++ le32 cns ++ le32 mode ++ le32 u4 ++ le32 uid ++
+        le32 gid ++ le32 u5 ++ trail))).calls =
+      [remapOf h, call fs h "setattr" [.n h.nodeid,
+        .stat { ino := 0, size := size, blocks := 0, atime := atime, mtime := mtime, ctime := ctime,
+                atimeNsec := ans, mtimeNsec := mns, ctimeNsec := cns, mode := mode, nlink := 0,
+                uid := uid, gid := gid, rdev := 0, blksize := 0 },
+        .optN (if valid &&& 64 != 0 then some fh else none), .n (valid &&& SETATTR_VALID_MASK)]] := by
+  rw [handle_reaches_handler cfg fs h R.wf _ R.len R.remapOk, hop]
+  unfold handleBody
+  simp only
+  rw [withObj_ok _ _ _ _ _ (by simp only [List.length_append, le32_length, le64_length]; omega)]
+  simp only [simple_calls, mkCall, call, List.cons_append, List.nil_append, FATTR_FH, setattrOf,
+    Conv.statOfSetattr]
+  wire_norm
+
+/-- SETXATTR: name, value bytes (exactly `size` of them) and flags -/
+theorem setxattr_exact (cfg : Cfg) (fs : Call → Ans) (h : Hdr) (R : Req fs h) (hop : h.op = 21)
+    (flags : Nat) (h2 : flags < 2 ^ 32) (name value : Bytes) (hn : NameOk name) (hv : value.length < 2 ^ 32)
+    (hl : h.len = IN_HDR + 8 + (name.length + 1 + value.length)) :
+    (handle cfg fs (encHdr h ++ ((le32 value.length ++ le32 flags) ++ (name ++ 0 :: value)))).calls =
+      [remapOf h, call fs h "setxattr" [.n h.nodeid, .bytes name, .bytes value, .n flags]] := by
+  rw [handle_reaches_handler cfg fs h R.wf _ R.len R.remapOk, hop]
+  unfold handleBody
+  simp only
+  rw [withObj_ok _ _ _ _ _ (by simp only [List.length_append, le32_length]; omega)]
+  have hd : ((le32 value.length ++ le32 flags) ++ (name ++ 0 :: value)).drop 8 = name ++ 0 :: value := by
+    rw [show (8 : Nat) = (le32 value.length ++ le32 flags).length by simp, List.drop_left]
+  simp only [hd]
+  rw [getBody_ok h.len 8 (name.length + 1 + value.length) _ hl (by simp; omega)]
+  simp only
+  rw [List.take_of_length_le (by simp; omega)]
+  have hc : (name ++ 0 :: value).contains 0 = true := by simp
+  have htw : (name ++ 0 :: value).takeWhile (· != 0) = name := by
+    have := cstr_name name value hn
+    unfold cstr at this
+    rw [if_pos hc] at this
+    exact Option.some.inj this
+  have hdv : (name ++ 0 :: value).drop (name.length + 1) = value := by
+    rw [show name ++ 0 :: value = (name ++ [0]) ++ value by simp,
+        show name.length + 1 = (name ++ [0]).length by simp, List.drop_left]
+  have hsz : u32At (List.take 8 (le32 value.length ++ le32 flags ++ (name ++ 0 :: value))) 0 = value.length := by
+    wire_norm
+  simp only [hc, Bool.not_true, Bool.false_eq_true, if_false, htw, hdv]
+  simp only [List.append_assoc] at hsz ⊢
+  rw [hsz, Nat.mod_eq_of_lt hv]
+  simp only [bne_self_eq_false, Bool.false_eq_true, if_false, simple_calls, mkCall, call, List.cons_append, List.nil_append]
+  wire_norm
+
+/-- BATCH_FORGET: every (node id, count) pair, in order -/
+theorem batch_forget_exact_one (cfg : Cfg) (fs : Call → Ans) (h : Hdr) (R : Req fs h) (hop : h.op = 42)
+    (dummy ino cnt : Nat) (h1 : dummy < 2 ^ 32) (h2 : ino < 2 ^ 64) (h3 : cnt < 2 ^ 64) (trail : Bytes) :
+    (handle cfg fs (encHdr h ++ (le32 1 ++ le32 dummy ++ le64 ino ++ le64 cnt ++ trail))).calls =
+      [remapOf h, call fs h "batch_forget" [.pairs [(ino, cnt)]]] := by
+  rw [handle_reaches_handler cfg fs h R.wf _ R.len R.remapOk, hop]
+  unfold handleBody
+  simp only
+  rw [withObj_ok _ _ _ _ _ (by simp only [List.length_append, le32_length, le64_length]; omega)]
+  have hc : u32At (List.take 8 (le32 1 ++ le32 dummy ++ le64 ino ++ le64 cnt ++ trail)) 0 = 1 := by wire_norm
+  have hd : (le32 1 ++ le32 dummy ++ le64 ino ++ le64 cnt ++ trail).drop 8 = le64 ino ++ le64 cnt ++ trail := by
+    rw [show le32 1 ++ le32 dummy ++ le64 ino ++ le64 cnt ++ trail = (le32 1 ++ le32 dummy) ++ (le64 ino ++ le64 cnt ++ trail) by simp,
+        show (8 : Nat) = (le32 1 ++ le32 dummy).length by simp, List.drop_left]
+  simp only [List.append_assoc] at hc hd ⊢
+  simp only [hc, hd]
+  rw [if_neg (by decide), if_neg (by simp; omega)]
+  simp only [mkCall, call, List.cons_append, List.nil_append, List.range_one, List.map_cons, List.map_nil,
+    Nat.mul_zero, Nat.zero_add]
+  wire_norm
+
 /-- no other file-system operation is invoked: apart from the id-remap, one call -/
 theorem exactly_one_call_example (cfg : Cfg) (fs : Call → Ans) (h : Hdr) (R : Req fs h) (hop : h.op = 14)
     (flags fuseFlags : Nat) (hf : flags < 2 ^ 32) (hff : fuseFlags < 2 ^ 32) (trail : Bytes) :
